@@ -117,6 +117,9 @@ type Commit struct {
 	Size     int      `json:"size"`
 	Code     int      `json:"code"`
 	Accepted bool     `json:"accepted"` // 2yz at end-of-data
+	// ReplyLost: the server took the message (it counts as accepted) but the connection went down before the
+	// 2yz reply left: Action{Kind: Drop, Code: 2yz} at DATA-END
+	ReplyLost bool `json:"reply_lost,omitempty"`
 	Complete bool     `json:"complete"` // terminating CRLF.CRLF was received
 }
 
@@ -837,6 +840,9 @@ func (s *Session) readData() error {
 		err = aerr
 		if a.Kind == Reply {
 			c.Code = a.Code
+		}
+		if a.Kind == Drop && a.Code/100 == 2 {
+			c.Code, c.ReplyLost = a.Code, true
 		}
 	} else {
 		c.Code = 250
